@@ -156,7 +156,21 @@ def validate_before_write(F, R):
                 ext = [n for n in src if not (n in bodies or any(n == q for q in bodies)) and not n.endswith('::ok_or')]
                 local_fail = [n for n in src if n in may_fail]
                 if ext and not local_fail:
-                    out.append((bi, '?%s' % '/'.join(x.split('::')[-1] for x in ext)))
+                    # named by the error it yields when the conversion of the foreign error is visible (`.map_err(|_| E::V)?`),
+                    # so that `match f() { Err(_) => Err(E::V) }` and the `?` form are the same instance
+                    vs = set()
+                    og2 = Origin(b, transparent=re.compile(TRANSPARENT_CALLS.pattern[:-2] + r'|branch)$')).of_operand(t['args'][0])
+                    for l in og2:
+                        if l[0] == 'call' and re.search(r'::map_err$', l[1] or '') and isinstance(l[2], int):
+                            mt = b.blocks[l[2]]['term']
+                            for cl in F.descendants(b):
+                                if len(mt.get('args', [])) > 1 and any(x[0] == 'agg' and x[1] == cl.path for x in Origin(b).of_operand(mt['args'][1]) if len(x) > 1) or (op_const(mt['args'][1]) or {}).get('def') == cl.path if len(mt.get('args', [])) > 1 else False:
+                                    for bi2, j2, s2 in agg_sites(cl, r'Error$'):
+                                        vs.add(s2['rv'].get('variant'))
+                    if len(vs) == 1 and len(ext) == 1 and re.search(r'try_from$', ext[0]):
+                        out.append((bi, 'Err(%s)' % vs.pop()))
+                    else:
+                        out.append((bi, '?%s' % '/'.join(x.split('::')[-1] for x in ext)))
         return out
     intrinsic = {p: intrinsic_sites(p, b) for p, b in bodies.items()}
 
@@ -242,7 +256,8 @@ def validate_before_write(F, R):
     for p in sorted(bodies):
         if intrinsic[p]:
             whats = sorted({w for _, w in intrinsic[p]})
-            if p in dirty and all(w.startswith('?try_from') for w in whats) and only_constant_arguments(p):
+            lenconv = all(w.startswith('?try_from') or w == 'Err(InvalidLength)' for w in whats) and any(True for _ in bodies[p].calls_to(r'::try_from$'))
+            if p in dirty and lenconv and only_constant_arguments(p):
                 R.note('%s: its only failure is the length conversion and every call passes a constant byte string' % p)
                 R.ob('C08.validate-before-write', '%s|%s|entered-after-write' % (p, '+'.join(whats)), True, '')
                 continue
